@@ -318,8 +318,8 @@ P_SEQ_OPTC = {"i0": SMALL, "i1": I(0, 1), "hi": B, "hx": B, "hl": B, "k": I(0, 2
 
 def constructed():
     C = []
-    C.append(Entry("seq", _seq_basic("SEQ"), P_SEQ_BASIC, _mk_seq_basic, ["constructed", "univ", "record"]))
-    C.append(Entry("set", _seq_basic("SET"), P_SEQ_BASIC, _mk_seq_basic, ["constructed", "univ", "record", "set"]))
+    C.append(Entry("seq", _seq_basic("SEQ"), P_SEQ_BASIC, _mk_seq_basic, ["constructed", "univ", "record"], shard=("hb", "hd")))
+    C.append(Entry("set", _seq_basic("SET"), P_SEQ_BASIC, _mk_seq_basic, ["constructed", "univ", "record", "set"], shard=("hb", "hd")))
     C.append(Entry("seqof_int", T("SEQOF", elem=INT), {"k": I(0, 3), "i0": I(-2 ** 17, 2 ** 17), "i1": SIGNED_SMALL, "i2": I(0, 1)}, _mk_seqof_int, ["constructed", "univ", "list"]))
     C.append(Entry("setof_int", T("SETOF", elem=INT), {"k": I(0, 3), "i0": I(-40000, 40000), "i1": SIGNED_SMALL, "i2": I(0, 1)}, _mk_seqof_int, ["constructed", "univ", "list", "setof"], shard=("k",)))
     C.append(Entry("setof_octs", T("SETOF", elem=OCTS), {"k": I(0, 3), "n": I(0, 2), "o0": BYTE, "o1": BYTE, "o2": BYTE}, _mk_setof_octs, ["constructed", "univ", "list", "setof"], shard=("k",)))
